@@ -202,7 +202,18 @@ def exec_image(case):
         else:
             i = int(pr["frac"] * (len(px) - 1))
         cx, cy = (W - 1) / 2, (H - 1) / 2
-        if kind == "interior":
+        if kind == "pole":
+            # a celestial pole lying inside the image: the latitude extreme is in the interior
+            with warnings.catch_warnings():
+                warnings.simplefilter("ignore")
+                pp = wcs.wcs_world2pix([[0.0, 90.0], [0.0, -90.0]], 0)
+            cand = [q for q in pp if np.isfinite(q).all() and -0.5 + 0.2 <= q[0] <= W - 0.5 - 0.2 and -0.5 + 0.2 <= q[1] <= H - 0.5 - 0.2]
+            if not cand:
+                continue
+            q = cand[0]
+            qx = q[0] + (pr["frac"] - 0.5) * 0.1
+            qy = q[1] + (pr["frac2"] - 0.5) * 0.1
+        elif kind == "interior":
             qx = -0.5 + pr["frac"] * W
             qy = -0.5 + pr["frac2"] * H
         else:
@@ -261,9 +272,18 @@ def image_cases(draw, tier, max_scale_log=-0.52):
 @st.composite
 def strat_image(draw, tier):
     case = draw(image_cases(tier))
+    polar = draw(st.integers(0, 7)) == 0
+    if polar:
+        # an image with a celestial pole well inside it (latitude extreme in the interior, all longitudes)
+        case["size"] = [draw(st.integers(20, 120)), draw(st.integers(20, 120))]
+        case["wcs"]["dec"] = draw(st.sampled_from([1, -1])) * draw(st.floats(88.5, 89.95))
+        case["wcs"]["scale"] = draw(st.sampled_from([0.02, 0.05, 0.1]))
+        case["wcs"]["crpix_mode"] = "half"
+        case["wcs"]["skew"] = 0.0
+        case["wcs"]["ratio"] = 1.0
     probes = []
     for _ in range(draw(st.integers(2, 6))):
-        kind = draw(st.sampled_from(["latmax", "latmin", "lonmax", "lonmin", "latmax", "latmin", "lonmax", "lonmin", "ring", "interior"]))
+        kind = draw(st.sampled_from(["pole", "pole", "interior", "ring"] if polar else ["latmax", "latmin", "lonmax", "lonmin", "latmax", "latmin", "lonmax", "lonmin", "ring", "interior", "pole"]))
         pr = {"kind": kind, "shift": draw(st.floats(0.01, 0.45)), "ratio": 2 ** draw(st.floats(-10, 2)), "frac": draw(st.floats(0, 1)), "frac2": draw(st.floats(0, 1))}
         probes.append(pr)
     case["probes"] = probes
